@@ -1,6 +1,6 @@
 (* Properties_C16.v — obligations of property C16 (text buffers are always well-formed, printable
    and terminated). *)
-Require Import ObsRun Lemmas_WF Lemmas_Tables.
+Require Import ObsRun Lemmas_WF Lemmas_TabConv.
 Local Open Scope Z_scope.
 
 (* After EVERY call of EVERY call sequence, each of the four texts shown by the getters has its
